@@ -211,14 +211,13 @@ def parse (T : Table) (ts : List Tok) : Option E :=
 
 /-! ## which trees the real parser can produce, and the decidable side condition on the tables -/
 
-/-- trees of the fragment: operators in the role the tables give them; `++`/`--` only on a primary
-(the real parser rejects other targets); no endless ranges, and no range whose end starts with a prefix
+/-- trees of the fragment: operators in the role the tables give them; `++`/`--` not applied twice
+(the parser takes a single postfix operator); no endless ranges, and no range whose end starts with a prefix
 operator that the parser does not accept at that place (`a...(<<b)`), see docs/C05.md -/
 def Valid (T : Table) : E → Bool
   | .atom _ => true
   | .un o e => T.unOps.contains o && Valid T e
-  | .post (.atom _) o => T.postOps.contains o
-  | .post _ _ => false
+  | .post e o => T.postOps.contains o && Valid T e && (match e with | .post _ _ => false | _ => true)
   | .bin k o l r =>
     ((T.ladder.any fun lv => lv.kind == k && lv.ops.contains o) || (k == .bin && o == T.powOp)) &&
       Valid T l && Valid T r
